@@ -54,7 +54,9 @@ func (g *grammarView) tok(s fa.Sym) int {
 	return g.classes[s.Class].Lo
 }
 
-func (g *grammarView) word(w []fa.Sym) string { return WordString(w, g.classes, "parser", g.sym, g.rules) }
+func (g *grammarView) word(w []fa.Sym) string {
+	return WordString(w, g.classes, "parser", g.sym, g.rules)
+}
 
 // forAll explores the product of a rule DFA with an integer observer; at every accepting state the
 // observer value must satisfy ok. Returns a shortest violating word.
@@ -562,4 +564,157 @@ func (w *World) NameRules() (map[string]bool, error) {
 		}
 	}
 	return out, nil
+}
+
+// LexerRuleAccepts simulates the lexer automaton (rule references expanded through a call stack) and
+// reports whether the named rule can consume exactly the given word.
+func (w *World) LexerRuleAccepts(rule string, word string) (bool, error) {
+	art := w.Arts["go/lexer"]
+	if art == nil || w.GoLexer == nil {
+		return false, fmt.Errorf("Go lexer automaton not available")
+	}
+	a := w.GoLexer
+	ri, ok := ruleIndex(art.Rules)[rule]
+	if !ok {
+		return false, fmt.Errorf("lexer rule %s not found", rule)
+	}
+	rs := []rune(word)
+	type cfg struct {
+		st, pos int
+		stack   string
+	}
+	start := cfg{a.RuleStart[ri], 0, ""}
+	seen := map[cfg]bool{start: true}
+	queue := []cfg{start}
+	for len(queue) > 0 {
+		c := queue[0]
+		queue = queue[1:]
+		s := a.States[c.st]
+		if s.Type == atn.StRuleStop {
+			if c.stack == "" {
+				if s.Rule == ri && c.pos == len(rs) {
+					return true, nil
+				}
+				continue
+			}
+			i := strings.LastIndex(c.stack, ",")
+			var ret int
+			fmt.Sscanf(c.stack[i+1:], "%d", &ret)
+			n := cfg{ret, c.pos, c.stack[:i]}
+			if !seen[n] {
+				seen[n] = true
+				queue = append(queue, n)
+			}
+			continue
+		}
+		for _, e := range s.Out {
+			var n cfg
+			switch e.Type {
+			case atn.TEpsilon, atn.TAction, atn.TPredicate, atn.TPrecedence:
+				n = cfg{e.Trg, c.pos, c.stack}
+			case atn.TRule:
+				if len(c.stack) > 400 {
+					continue
+				}
+				n = cfg{e.A1, c.pos, fmt.Sprintf("%s,%d", c.stack, e.Trg)}
+			default:
+				if c.pos >= len(rs) {
+					continue
+				}
+				iv, neg, _ := a.EdgeSymbols(e)
+				in := false
+				for _, v := range iv {
+					if int(rs[c.pos]) >= v.Lo && int(rs[c.pos]) <= v.Hi {
+						in = true
+					}
+				}
+				if in == neg {
+					continue
+				}
+				n = cfg{e.Trg, c.pos + 1, c.stack}
+			}
+			if !seen[n] {
+				seen[n] = true
+				queue = append(queue, n)
+			}
+		}
+	}
+	return false, nil
+}
+
+// LayoutVocabulary (R8.8, C03): the lexer automaton that runs accepts the layout and identifier
+// shapes the property enumerates (sample words from the property text, evaluated on the automaton),
+// and the parser's identifier rule admits the keywords that may be used as names.
+func (w *World) LayoutVocabulary(r *oblig.Report, rule string) {
+	must := []struct{ rule, word, what string }{
+		{"EXTENDED_IDENTIFIER", "acme.eng-team", "dotted and dashed identifier"},
+		{"EXTENDED_IDENTIFIER", "org/parent-unit.v2", "slashed, dashed and dotted identifier"},
+		{"EXTENDED_IDENTIFIER", "a-b", "dashed identifier"},
+		{"EXTENDED_IDENTIFIER", "a/b", "slashed identifier"},
+		{"EXTENDED_IDENTIFIER", "a.b", "dotted identifier"},
+		{"IDENTIFIER", "folder_2-x", "identifier with underscore, digit and dash"},
+		{"WHITESPACE", "\t", "tab indentation"},
+		{"WHITESPACE", "  ", "space indentation"},
+		{"NEWLINE", "\n", "LF line end"},
+		{"NEWLINE", "\r\n", "CRLF line end"},
+		{"NEWLINE", "\n\n  \n\t", "blank lines followed by indentation"},
+	}
+	mustNot := []struct{ rule, word, what string }{
+		{"EXTENDED_IDENTIFIER", "a..b", "two adjacent separators"},
+		{"EXTENDED_IDENTIFIER", "-a", "leading dash"},
+		{"IDENTIFIER", "1a", "leading digit"},
+	}
+	for _, m := range must {
+		ok, err := w.LexerRuleAccepts(m.rule, m.word)
+		construct := fmt.Sprintf("lexer-accepts:%s:%q", m.rule, m.word)
+		switch {
+		case err != nil:
+			r.Unknown(rule, construct, "pkg/go/gen/openfga_lexer.go", err.Error())
+		case ok:
+			r.OK(rule, construct, "pkg/go/gen/openfga_lexer.go", "automaton-membership", m.what)
+		default:
+			r.Bad(rule, construct, "pkg/go/gen/openfga_lexer.go", fmt.Sprintf("the embedded lexer rule %s does not accept %q (%s), which the property lists as a permitted layout", m.rule, m.word, m.what))
+		}
+	}
+	for _, m := range mustNot {
+		ok, err := w.LexerRuleAccepts(m.rule, m.word)
+		construct := fmt.Sprintf("lexer-rejects:%s:%q", m.rule, m.word)
+		switch {
+		case err != nil:
+			r.Unknown(rule, construct, "pkg/go/gen/openfga_lexer.go", err.Error())
+		case !ok:
+			r.OK(rule, construct, "pkg/go/gen/openfga_lexer.go", "automaton-membership", m.what)
+		default:
+			r.Bad(rule, construct, "pkg/go/gen/openfga_lexer.go", fmt.Sprintf("the embedded lexer rule %s accepts %q (%s)", m.rule, m.word, m.what))
+		}
+	}
+	// keywords usable as names
+	g, err := w.view()
+	if err != nil {
+		r.Unknown(rule, "anchor:parser-atn", "-", err.Error())
+		return
+	}
+	ri, ok := g.ruleIdx["identifier"]
+	if !ok {
+		r.Unknown(rule, "anchor:identifier", "-", "parser rule identifier not found")
+		return
+	}
+	d := g.dfa[ri]
+	for _, kw := range []string{"MODEL", "SCHEMA", "TYPE", "RELATION", "MODULE", "EXTEND", "IDENTIFIER"} {
+		t, okT := g.tokIdx[kw]
+		construct := "keyword-as-name:" + kw
+		acc := false
+		if okT {
+			for si, nx := range d.Next[0] {
+				if s := d.Syms[si]; s.Ref < 0 && g.classes[s.Class].Lo == t && d.Accept[nx] {
+					acc = true
+				}
+			}
+		}
+		if acc {
+			r.OK(rule, construct, "pkg/go/gen/openfga_parser.go", "automaton-membership", "identifier → "+kw)
+		} else {
+			r.Bad(rule, construct, "pkg/go/gen/openfga_parser.go", "the parser rule identifier does not admit the token "+kw+": that keyword cannot be used as a name")
+		}
+	}
 }
